@@ -25,7 +25,7 @@ View == <<cfg, q, calls, since, last>>
 
 PeriodSetAll == {-1, 0, 1, 2, 3}
 PeriodSetThorough == {-2, -1, 0, 1, 2, 3, 4}
-TMSetAll == {0, 1, -2}
+TMSetAll == {0, 4, -8, 2, -15, 9}      \* target means in QUARTERS: 0, 1, -2 and the fractional 0.5, -3.75, 2.25
 
 XS == <<-100000, -40, -7, -3, -2, -1, 0, 1, 2, 3, 5, 6, 40, 100000>>   \* +-100000 stand for +-1e30
 Mean(c, part) == IF part = 1 THEN 10 * (c + 1) ELSE -7 * (c + 1)
@@ -39,9 +39,10 @@ Clip(v) == IF v < Lo THEN Lo ELSE IF v > Hi THEN Hi ELSE v
 RoundSet(N, d) == LET f == N \div d  r == N % d IN
                   IF 2 * r < d THEN {f} ELSE IF 2 * r > d THEN {f + 1} ELSE {f, f + 1}
 
-(* the map: round((K / s) * (x - m) + tm), clipped; s = 0 means factor 0 *)
-Q(x, m, s) == IF s = 0 THEN {Clip(cfg.tm)}
-              ELSE {Clip(v) : v \in RoundSet(cfg.K * (x - m) + cfg.tm * s, s)}
+(* the map: round((K / s) * (x - m) + tm/4), clipped; s = 0 means factor 0.  The target mean is inside the rounding:
+   a fractional target mean moves the rounding boundaries, it is not added to already rounded deviations *)
+Q(x, m, s) == IF s = 0 THEN {Clip(v) : v \in RoundSet(cfg.tm, 4)}
+              ELSE {Clip(v) : v \in RoundSet(4 * cfg.K * (x - m) + cfg.tm * s, 4 * s)}
 
 Parts == IF cfg.cplx THEN {1, 2} ELSE {1}
 
@@ -126,5 +127,5 @@ ZeroVariance ==
     \A part \in DOMAIN last :
         (hist # <<>> /\ hist[Len(hist)].act.name = "Quantize"
            /\ hist[Len(hist)].act.custom = 0 /\ q[part].s = 0)
-        => \A j \in 1..Len(last[part]) : last[part][j] = {Clip(cfg.tm)}
+        => \A j \in 1..Len(last[part]) : last[part][j] = {Clip(v) : v \in RoundSet(cfg.tm, 4)}
 =============================================================================
